@@ -329,6 +329,10 @@ def _case(rng, n, m, kind):
             H[1] = 0.0
             H[1, a] = -1.0 if rng.rand() < 0.5 else 1.0
             H[1, b] = 1.0 if H[1, a] < 0 else 0.0
+    if kind == "all_zero_residual":
+        # the measurement agrees EXACTLY with the prediction (covariance analysis with noise-free fixes taken from the
+        # nominal trajectory): the innovation is exactly zero, the covariance must still be updated
+        z = H.dot(x)
     if kind == "zero_residual":
         # residual with exact zeros after a non-zero component (a measurement that agrees exactly with the prediction)
         e = np.zeros(m)
@@ -341,7 +345,7 @@ def _case(rng, n, m, kind):
 def _native_quick(py):
     rng = np.random.RandomState(0)
     bad = []
-    for kind in ("well", "ill", "rank", "extreme", "extreme", "extreme", "structured", "structured", "structured", "zero_residual", "zero_residual"):
+    for kind in ("well", "ill", "rank", "extreme", "extreme", "extreme", "structured", "structured", "structured", "zero_residual", "zero_residual", "all_zero_residual", "all_zero_residual"):
         x, P, z, H, R = _case(rng, 5, 2, kind)
         r = _check_one(py, x, P, z, H, R)
         if r:
@@ -407,7 +411,7 @@ def _standin(ctx, py):
     fails = []
     for k in range(n_cases):
         n, m = int(rng.randint(1, 13 if ctx.tier == "quick" else 21)), int(rng.randint(1, 7))
-        kind = ["well", "ill", "rank", "extreme", "structured", "zero_residual"][k % 6]
+        kind = ["well", "ill", "rank", "extreme", "structured", "zero_residual", "all_zero_residual"][k % 7]
         if kind == "extreme":
             m = min(m, n)
         x, P, z, H, R = _case(rng, n, m, kind)
